@@ -210,3 +210,43 @@ def unit_file_arith(ctx):
         _fail_all(ctx, [n for n in C11_NAMES if not any(o["obligation"] == n for o in ctx.smt)],
                   "E2 file unit internal error: %s\n%s" % (e, traceback.format_exc()[-1200:]))
     _log(ctx, "file unit done in %.0fs" % (time.time() - t0))
+
+
+# ---------------------------------------------------------------- E2-cfg: Worker::on_batch (C10 K2 o1-o3, C11 K3 r1/r3)
+
+def _cfg_fail(ctx, name, why):
+    _fail_all(ctx, [name], why)
+
+
+def unit_file_onbatch(ctx):
+    from mir2smt import file_cfg_ob as fc, cfg_driver
+    t0 = time.time()
+    try:
+        u = _Unit(ctx, "file-cfg")
+        pref = {"C10": ("K2_",), "C11": ("K3_",)}.get(ctx.prop, ("K2_", "K3_"))
+        nat_box = {}
+
+        def native_for():
+            if "n" not in nat_box:
+                nat_box["n"] = u.native("filecfg", [("emitter/file", [], True)], append=[(fc.FILE, fc.WRAPPER)])
+            return nat_box["n"]
+
+        with concurrent.futures.ThreadPoolExecutor(max_workers=2) as pool:
+            f_mir = pool.submit(u.mir, "emitter/file", True)
+            f_warm = pool.submit(lambda: native_for().run("fn main() {}\n")) if "K3_" in pref else None
+            mir = f_mir.result()
+            if f_warm is not None:
+                rc, out, err = f_warm.result()
+                if rc != 0:
+                    raise engine.EngineError("native crate for emit_file (+ appended in-memory Worker wrapper) does not build: %s" % err[-600:])
+        P = Program(u.tree)
+        P.add_dump(mir, "emit_file")
+        A = fc.build(P)
+        _log(ctx, "on_batch abstraction: %s; %d SMT lines" % (A.stats(), len(A.S.lines)))
+        obs = [o for o in fc.obligations(P, A, native_for) if o.name.startswith(pref)]
+        cfg_driver.decide_cfg(ctx, obs, u.dir, jobs=_jobs())
+    except (engine.EngineError, Unsupported, Inconclusive) as e:
+        _cfg_fail(ctx, "E2cfg_file_onbatch", "E2-cfg file unit: %s" % e)
+    except Exception as e:
+        _cfg_fail(ctx, "E2cfg_file_onbatch", "E2-cfg file unit internal error: %s\n%s" % (e, traceback.format_exc()[-1500:]))
+    _log(ctx, "file on_batch unit done in %.0fs" % (time.time() - t0))
